@@ -12,7 +12,7 @@ import (
 // add / departure). At quiescence the newcomer's view - its snapshot updated by the broadcasts it received,
 // in the order it received them - must equal what a later probe is handed.
 func VerifC01Par() {
-	s := newStepWorld(stepShape{mods: vModVikja | vModOdal, preset: 0})
+	s := newStepWorld(stepShape{mods: vModVikja | vModOdal, preset: 0, noFree: true})
 	p1 := s.w.newConn()
 	var joinMsgs []hwebsocket.Msg
 	what := verifnd.Choice(4)
